@@ -453,7 +453,7 @@ def apply_variant(margs, extra):
 
 
 # ----------------------------------------------------------------------------- main entry
-def run(res, ctx):
+def _run_props(res, ctx):
     import logging
     logging.disable(logging.NOTSET)     # translate.run() silences logging process-wide; diagnostics are what we observe here
     thorough = res.tier == "thorough"
@@ -589,6 +589,7 @@ def run(res, ctx):
         run_observations(res, tmp, drv)
         run_ini(res, tmp, drv)
         run_baseline_exit(res, tmp)
+        run_profile_names(res, tmp)
         check_tables(res, drv)
         res.exhaustive = thorough    # the full finite option space (incl. mixed spellings, all verbosities) only in thorough
         res.extra["programs"] = len(progs)
@@ -857,6 +858,38 @@ def run_baseline_exit(res, tmp):
                             res.violation("a program re-scanned against its own report lists findings", replay)
 
 
+def run_profile_names(res, tmp):
+    """A legacy profile selected with -p is found whatever its name looks like (dots, dashes, blanks, digits): exit status 2 is reserved for real errors; with a
+    valid configuration the status follows the findings (seeded change C03-m11 looked the profile up with a dotted-path helper: `py3.9` was never found)."""
+    import yaml
+    d = os.path.join(tmp, "prof")
+    os.makedirs(d)
+    prog = _write(os.path.join(d, "mod.py"), "assert x\nexec(c)\nimport pickle\n")
+    clean = _write(os.path.join(d, "clean.py"), "x = 1\n")
+    names = ["plain", "py3.9", "ci-strict", "v1.2.3", "web app", "a.b.c", "profiles", "tests"]
+    cfg = os.path.join(d, "cfg.yaml")
+    with open(cfg, "w") as fh:
+        yaml.safe_dump({"profiles": {n: {"include": ["B101", "B102"]} for n in names}}, fh)
+    for n in names:
+        for target, want_exit, want_n in ((prog, 1, 2), (clean, 0, 0)):
+            for extra in ([], ["--exit-zero"], ["-ll"]):
+                argv = ["-c", cfg, "-p", n, "-f", "json"] + extra + [target]
+                r = C.run_cli(argv)
+                res.case(("profile-name", n, os.path.basename(target), tuple(extra)), True)
+                res.count("stream:profile-names")
+                try:
+                    got = len(json.loads(r["out"])["results"])
+                except Exception:
+                    got = None
+                exp_n = want_n if extra != ["-ll"] else (1 if want_n else 0)      # -ll keeps the MEDIUM finding (B102)
+                exp_exit = 0 if (extra == ["--exit-zero"] or exp_n == 0) else 1
+                if r["exc"] is not None or r["exit"] != exp_exit or got != exp_n:
+                    res.violation("a valid configuration with a legacy profile selected by -p: wrong exit status or report (2 is reserved for errors)",
+                                  {"stream": "profile-names", "profile": n, "argv": [a.replace(tmp, "{TMP}") for a in argv], "config": {"profiles": {n: {"include": ["B101", "B102"]}}},
+                                   "program": open(target).read(), "exit": r["exit"], "expected_exit": exp_exit, "findings_in_report": got, "expected_findings": exp_n,
+                                   "exc": r["exc"], "stderr": r["err"][-300:]})
+
+
 def check_tables(res, drv):
     """the generated tables against the running code (the translator is trusted; this is a cheap cross-check)"""
     if drv is None:
@@ -906,3 +939,10 @@ def run_replay(res, rp, tmp, drv):
         if drv is not None:
             drv.close()
         return run(res, ctx2)
+
+
+def run(res, ctx):
+    import clirel
+    _run_props(res, ctx)
+    # relations between runs of the command-line tool that differ in one kind of option (harness/clirel.py): the relations this property owns
+    clirel.family(res, ctx, C, "C03", 150, 900)
